@@ -74,3 +74,36 @@ def assume_order(S, arr, order):
 def order_of(arr):
     buf = getattr(arr, "buf", None)
     return getattr(buf, "tags", {}).get("order") if buf is not None else None
+
+
+def slice_count(S, n, a, b, step):
+    """number of positions visited by slice(a, b, step) on length n, and the first one"""
+    step = 1 if step is None else step
+    lo, hi = slice_bounds(S, n, a, b, step)
+    if step > 0:
+        cnt = S.ite(hi > lo, S.div(hi - lo + (step - 1), step), 0)
+    else:
+        cnt = S.ite(lo > hi, S.div(lo - hi + (-step - 1), -step), 0)
+    return lo, cnt, step
+
+
+def selector(S, n, entry):
+    """one entry of a position tuple -> (count or None when the dimension is dropped, src: k -> position,
+    member: p -> is position p selected)"""
+    if isinstance(entry, slice):
+        lo, cnt, step = slice_count(S, n, entry.start, entry.stop, entry.step)
+        if step > 0:
+            member = lambda p: S.land(p >= lo, S.mod(p - lo, step) == 0, S.div(p - lo, step) < cnt)
+        else:
+            member = lambda p: S.land(p <= lo, S.mod(lo - p, -step) == 0, S.div(lo - p, -step) < cnt)
+        return cnt, (lambda k: lo + step * k), member
+    if S.is_array(entry):
+        if S.kind(entry) == "b":
+            pos = S.mask_positions(entry)
+            return S.n(pos), (lambda k: S.at(pos, k)), (lambda p: S.at(entry, p))
+        src = lambda k: S.ite(S.at(entry, k) < 0, S.at(entry, k) + n, S.at(entry, k))
+        return S.n(entry), src, (lambda p: S.exists(0, S.n(entry), lambda k: src(k) == p))
+    if S.isint(entry):
+        q = S.ite(entry < 0, entry + n, entry)
+        return None, (lambda: q), (lambda p: p == q)
+    raise TypeError("selector: %r" % (entry,))
